@@ -151,7 +151,14 @@ func c08Run(c *fw.Ctx, id, pair string, src []byte, decorate func() (*dst.File, 
 		c.Count("files:"+pair, 1)
 		c.Count("qualified_identifiers_collapsed", int64(collapsed))
 		if !bytes.Equal(buf.Bytes(), src) {
-			preds := textPredicates(src)
+			// a file that round-trips without import management fails here because of its
+			// imports: of the textual predicates only the import-related one can name the cause
+			var preds []string
+			for _, p := range textPredicates(src) {
+				if p == "duplicate-import-path" {
+					preds = append(preds, p)
+				}
+			}
 			if c01FailsAny(src) {
 				// the file does not round-trip even without import management: same root cause
 				// and same classification as under C01
